@@ -152,6 +152,9 @@ def gate_sets(tier):
     return sets
 
 
+_SEQ = {}
+
+
 def oracle_own_params(rng, n=4):
     """each constituent pulse of the real composites carries the noise parameters of the qubit of its tensor slot"""
     out = []
@@ -162,7 +165,7 @@ def oracle_own_params(rng, n=4):
             q = {"c": (0.001 + rng.uniform(0, 1e-3), 11e-5 + rng.uniform(0, 1e-5), 12e-5 + rng.uniform(0, 1e-5)),
                  "t": (0.003 + rng.uniform(0, 1e-3), 21e-5 + rng.uniform(0, 1e-5), 22e-5 + rng.uniform(0, 1e-5))}
             if it == n:        # amplitude damping off on one qubit (T1 = 0), pure dephasing on: the values must reach the pulses unchanged
-                w = rng.choice(["c", "t"]); q[w] = (q[w][0], 0.0, q[w][2])
+                for w in ("c", "t"): q[w] = (q[w][0], 0.0, q[w][2])
             if it == n + 1:    # a short but valid gate time: the cross-resonance pulses last less than one single-qubit gate
                 t = rng.uniform(1.15e-7, 1.35e-7)
             args = [phc, pht, t, 0.03, q["c"][0], q["t"][0], q["c"][1], q["c"][2], q["t"][1], q["t"][2]]
@@ -179,6 +182,11 @@ def oracle_own_params(rng, n=4):
                 if hasattr(f, attr): setattr(f, attr, Tag(attr, dim))
             getattr(g, nm)(*args)
             base = list(log)
+            # the pulse sequence of a gate is the same whatever the parameter values are ("0 means off" is decided INSIDE each pulse)
+            seq = [c[0] for c in base]
+            if nm in _SEQ and _SEQ[nm] != seq:
+                out.append((nm, -1, "constituent sequence %r differs from %r for other parameter values (a pulse or idle period was skipped)" % (seq, _SEQ[nm]), args))
+            _SEQ.setdefault(nm, seq)
             # slot of call k: replace its matrix by diag(1,2) and see which tensor factor changes
             kt = 3 if nm == "CNOT_inv" else 1
             pcr_want = (4 / 3) * (1 - np.sqrt(np.sqrt((1 - 0.75 * 0.03) ** 2 / ((1 - 0.75 * q["c"][0]) ** 2 * (1 - 0.75 * q["t"][0]) ** kt))))
